@@ -119,44 +119,54 @@ def dropEmpty (s : State) (c : Cell) : State :=
   | some [] => { s with surplus := s.surplus.del c }
   | _ => s
 
+/-- first block of `update` (identifier changed):
+```
+if self._active_unit_identifier is not None:
+    if (len(self._occupants[self._active_cell]) < ... or self._number_occupants_not_bounded): ...append
+    else: self._surplus.setdefault(self._active_cell, []).append(self._active_unit_identifier)
+```
+the previous active unit is re-inserted into the *recorded* active cell -/
+def reinsertOld (s : State) : Except Err State :=
+  match s.activeId with
+  | none => .ok s
+  | some old =>
+    match s.activeCell with
+    | none => .error .keyError            -- `self._occupants[None]`
+    | some ac => .ok (insert s ac old)
+
+/-- second block of `update` (identifier changed): `if self._is_relevant_unit(new_active_unit): … else: …` -/
+def activate (s1 : State) (new : UnitIn) : Except Err State :=
+  if new.relevant then
+    let s2 : State := { s1 with activeCell := some new.cell, activeId := some new.id }
+    -- `try: self._occupants[self._active_cell].remove(new_active_unit.identifier)`
+    if new.id ∈ s2.occupants new.cell then
+      let s3 : State :=
+        { s2 with occupants := setAt s2.occupants new.cell ((s2.occupants new.cell).erase new.id) }
+      -- `if not self._surplus.get(self._active_cell, True):`
+      --     `self._occupants[...].append(self._surplus[self._active_cell].pop())`
+      -- only an *empty* list is falsy, and `[].pop()` raises IndexError
+      match s3.surplus.get? new.cell with
+      | some [] => .error .indexError
+      | _ => .ok (dropEmpty s3 new.cell)
+    else
+      -- `except ValueError: self._surplus[self._active_cell].remove(new_active_unit.identifier)`
+      match s2.surplus.get? new.cell with
+      | none => .error .keyError
+      | some l =>
+        if new.id ∈ l then
+          .ok (dropEmpty { s2 with surplus := s2.surplus.set new.cell (l.erase new.id) } new.cell)
+        else .error .valueError
+  else
+    .ok { s1 with activeId := none, activeCell := none }
+
 /-- `SingleActiveCellOccupancy.update` for the single active unit `new` on the cell level
-(`cell` is `position_to_cell(new.position)`). -/
+(`new.cell` is `position_to_cell(new.position)`). -/
 def update (s : State) (new : UnitIn) : Except Err State :=
   -- `if new_active_unit.identifier != self._active_unit_identifier:`
   if some new.id != s.activeId then
-    -- `if self._active_unit_identifier is not None:` re-insert it into the *recorded* active cell
-    let r1 : Except Err State :=
-      match s.activeId with
-      | none => .ok s
-      | some old =>
-        match s.activeCell with
-        | none => .error .keyError            -- `self._occupants[None]`
-        | some ac => .ok (insert s ac old)
-    match r1 with
+    match reinsertOld s with
     | .error e => .error e
-    | .ok s1 =>
-      if new.relevant then
-        let s2 : State := { s1 with activeCell := some new.cell, activeId := some new.id }
-        -- `try: self._occupants[self._active_cell].remove(new_active_unit.identifier)`
-        if new.id ∈ s2.occupants new.cell then
-          let s3 : State :=
-            { s2 with occupants := setAt s2.occupants new.cell ((s2.occupants new.cell).erase new.id) }
-          -- `if not self._surplus.get(self._active_cell, True):`
-          --     `self._occupants[...].append(self._surplus[self._active_cell].pop())`
-          -- only an *empty* list is falsy, and `[].pop()` raises IndexError
-          match s3.surplus.get? new.cell with
-          | some [] => .error .indexError
-          | _ => .ok (dropEmpty s3 new.cell)
-        else
-          -- `except ValueError: self._surplus[self._active_cell].remove(new_active_unit.identifier)`
-          match s2.surplus.get? new.cell with
-          | none => .error .keyError
-          | some l =>
-            if new.id ∈ l then
-              .ok (dropEmpty { s2 with surplus := s2.surplus.set new.cell (l.erase new.id) } new.cell)
-            else .error .valueError
-      else
-        .ok { s1 with activeId := none, activeCell := none }
+    | .ok s1 => activate s1 new
   else
     -- `self._active_cell = self._cells.position_to_cell(new_active_unit.position)`
     .ok { s with activeCell := some new.cell }
